@@ -19,7 +19,7 @@ import (
 // a2 a3 a4 are laid out twice.)
 func c02EarlierBreakKeys(c *core.Check) {
 	p := c.Prog
-	r := c.Rule("R13", "resume points name children of the original parent: in html/layout.findEarlierPageBreak every key of a ResumeStack it builds is a constant or is read from the Index field of a box (the list it walks holds only the children laid out on this page)", 3)
+	r := c.Rule("R13", "resume points name children of the original parent: in html/layout.findEarlierPageBreak every key of a ResumeStack it builds is a constant or is read from the Index field of a box (the list it walks holds only the children laid out on this page)", 1)
 	fn := p.Fn("html/layout", "findEarlierPageBreak")
 	if fn == nil {
 		r.Anchor("html/layout.findEarlierPageBreak")
